@@ -604,18 +604,24 @@ def expect_model(hout, mout, case):
     return None
 
 
+def is_legacy_kd(data):
+    """a kd-tree point cloud stream of a bitstream older than 2.3 (decoded by DracoModel/KdTreeLegacy.lean)"""
+    return len(data) >= 11 and data[:5] == b"DRACO" and data[7] == 0 and data[8] == 1 and (data[5], data[6]) < (2, 3)
+
+
 def model_decides(data, base):
-    """False when the model can only answer `unsupported` and nothing would be compared: a kd-tree / Edgebreaker
-    stream (method byte != 0) whose 11 header bytes are those of the valid stream it was derived from"""
+    """False when nothing would be compared: a kd-tree / Edgebreaker stream (method byte != 0) whose 11 header bytes
+    are those of the valid stream it was derived from (those families are compared with the model by their own `dec`
+    cases, foreign_corrupt_cases); legacy kd-tree streams are decided here (status, geometry, consumed bytes)"""
     if base is None or len(data) < 11 or len(base) < 11:
         return True
-    return data[8] == 0 or data[:11] != base[:11]
+    return data[8] == 0 or data[:11] != base[:11] or is_legacy_kd(data)
 
 
 def make_case(data, skip, flavour, oracles, tags, with_model=True, cap=CAP, base=None):
     with_model = with_model and model_decides(data, base)
     hx = data.hex() or "-"
-    dump = len(data) > 8 and data[8] == 0
+    dump = len(data) > 8 and (data[8] == 0 or is_legacy_kd(data))
     op = f"rdec cap={cap} skip={skip} " + ("dump=1 " if dump else "") + hx
 
     def oracle(hout, case):
@@ -737,6 +743,11 @@ def foreign_corrupt_cases(rng, tier, flavour="asan"):
         out += legacycases.corrupt_cases(rng, per_stream=20 if tier == "quick" else 60, flavour=flavour)
     except Exception as ex:       # noqa: BLE001
         C.log(f"[robustgen] legacycases not used: {ex}")
+    try:
+        from . import kdlegacy
+        out += kdlegacy.corrupt_cases(rng, tier, flavour=flavour)
+    except Exception as ex:       # noqa: BLE001
+        C.log(f"[robustgen] kdlegacy not used: {ex}")
     return out
 
 
